@@ -625,6 +625,24 @@ func configure(g *gen) {
 			{Callee: "responseText", Stmts: []string{"let %t := env.text %1", "w := %t.1"}, Value: "%t.2", T: T{"opaque", "Bool"}},
 			{Callee: "errors.New", Value: "true", T: T{"opaque", "Bool"}},
 		}})
+	// dispatch.go: the built-in fallback handlers (package-level function values).  The context is the list of calls made on
+	// it (`GoRt.REv`), the allowed methods stored by the dispatcher and the request method are parameters
+	add(FnSpec{Func: "internal404Handler", Lean: "internal404Handler", MutParams: []string{"c"}, RetExtra: []string{"c"}, RetExtraT: []string{"List GoRt.REv"},
+		Types: map[string]T{"*rux.Context": {"opaque", "List GoRt.REv"}},
+		Exts: []Ext{{Callee: "http.NotFound", Stmts: []string{"c := c ++ [GoRt.REv.httpError ([0x34, 0x30, 0x34, 0x20, 0x70, 0x61, 0x67, 0x65, 0x20, 0x6E, 0x6F, 0x74, 0x20, 0x66, 0x6F, 0x75, 0x6E, 0x64] : Bytes) 404]"}},
+			{Callee: "c.Resp", Value: "()", T: T{"opaque", "Unit"}}, {Callee: "c.Req", Value: "()", T: T{"opaque", "Unit"}}}})
+	add(FnSpec{Func: "internal405Handler", Lean: "internal405Handler", MutParams: []string{"c"}, RetExtra: []string{"c"}, RetExtraT: []string{"List GoRt.REv"},
+		Extra: []string{"(stored : List Bytes)", "(method : Bytes)", "(sortStrings : List Bytes → List Bytes)"},
+		Types: map[string]T{"*rux.Context": {"opaque", "List GoRt.REv"}},
+		Exts: []Ext{
+			{Callee: "c.SafeGet(CTXAllowedMethods).([]string)", Value: "stored", T: tStrList},
+			{Callee: "sort.Strings", Stmts: []string{"allowed := sortStrings %1"}},
+			{Callee: "c.SetHeader", Stmts: []string{"c := c ++ [GoRt.REv.setHeader %1 %2]"}},
+			{Callee: "c.Req.Method", Value: "method", T: tStr},
+			{Callee: "c.SetStatus", Stmts: []string{"c := c ++ [GoRt.REv.setStatus %1]"}},
+			{Callee: "c.Resp", Value: "()", T: T{"opaque", "Unit"}},
+			{Callee: "http.Error", Stmts: []string{"c := c ++ [GoRt.REv.httpError %2 %3]"}},
+		}})
 	// context_render.go: the response helpers as the sequence of calls they make on the context / on `c.Resp`
 	// (`GoRt.REv`); what the renderer and `io.Copy` return (error or not) are parameters
 	rctx := T{"opaque", "List GoRt.REv"}
